@@ -76,10 +76,13 @@ func (r *Runner) lateReplay() {
 	}
 }
 
-func scribbleRetained() {
+func scribbleRetained() { scribbleSince(0) }
+
+// scribbleSince changes, as their owner may, everything remembered after mark
+func scribbleSince(mark int) {
 	for i := range retainRing {
 		e := &retainRing[i]
-		if e.b == nil {
+		if e.b == nil || e.seq <= mark {
 			continue
 		}
 		b := e.b
@@ -99,11 +102,48 @@ func scribbleRetained() {
 	}
 	for i := range retainBigRing {
 		e := &retainBigRing[i]
-		if e.v == nil {
+		if e.v == nil || e.seq <= mark {
 			continue
 		}
 		v := e.v
 		e.v = nil
 		v.SetInt64(0x5EED)
+	}
+}
+
+// Ask again: every eighth request is evaluated a second time right away, after everything the first evaluation
+// returned has been scribbled on (a caller wipes the key it was given and decodes the same string again; it
+// appends to the bytes it was given and encodes the same value again). The answer must be the same.
+var askAgainCounter int
+
+func (r *Runner) askAgain(op string, args []string, ans string, tag string, mark int) {
+	if inLateReplay || inSibling || arena.active || arenaOff || ans == "panic" || ans == "bad-op" {
+		return
+	}
+	for _, p := range lateReplaySkip {
+		if strings.HasPrefix(op, p) {
+			return
+		}
+	}
+	askAgainCounter++
+	if askAgainCounter%8 != 3 {
+		return
+	}
+	total := 0
+	for _, a := range args {
+		total += len(a)
+	}
+	if total > 1<<15 {
+		return
+	}
+	scribbleSince(mark)
+	inLateReplay = true
+	ans2, _ := eval(op, args)
+	inLateReplay = false
+	r.res.Evaluations++
+	r.res.Distribution["asked again after the caller changed what it was given"]++
+	if ans2 != ans {
+		r.addFailure(Failure{Kind: "property", Op: op, Args: args, Go: ans2, Model: ans, Tag: tag + "/asked again",
+			Detail: "the same request, repeated after the caller overwrote (and appended to, within capacity) the bytes and integers the first call returned, is answered differently (first answer under model, second under go): the library kept, or handed out, memory it goes on using; " + firstDiff(ans2, ans)}, false)
 	}
 }
